@@ -2,6 +2,7 @@ package main
 
 import (
 	"bytes"
+	"compress/gzip"
 	"context"
 	"encoding/hex"
 	"fmt"
@@ -99,16 +100,41 @@ func expectedResMeta(meta map[string]string, cid string) map[string]string {
 	return out
 }
 
-// deterministic content of a given size
+// deterministic content of (about) a given size, in one of four shapes chosen by the seed:
+// pseudo-random (incompressible), repetitive (compressible), pseudo-random behind the gzip magic
+// bytes (looks like a gzip file, is not one), and a real gzip stream of pseudo-random data (an
+// already-compressed file: incompressible AND a valid gzip stream)
 func pattern(seed string, n int) []byte {
-	b := make([]byte, n)
 	x := uint32(2166136261)
 	for _, c := range []byte(seed) {
 		x = (x ^ uint32(c)) * 16777619
 	}
-	for i := range b {
-		x = x*1664525 + 1013904223
-		b[i] = byte(x >> 24)
+	shape := (x >> 7) % 4
+	fill := func(b []byte) {
+		for i := range b {
+			x = x*1664525 + 1013904223
+			b[i] = byte(x >> 24)
+		}
+	}
+	b := make([]byte, n)
+	switch {
+	case shape == 1:
+		for i := range b {
+			b[i] = "rpcx metadata "[i%14]
+		}
+	case shape == 2 && n >= 4:
+		fill(b)
+		copy(b, []byte{0x1f, 0x8b, 0x08, 0x00})
+	case shape == 3 && n >= 64:
+		raw := make([]byte, n-40)
+		fill(raw)
+		var zb bytes.Buffer
+		zw := gzip.NewWriter(&zb)
+		zw.Write(raw)
+		zw.Close()
+		return zb.Bytes()
+	default:
+		fill(b)
 	}
 	return b
 }
